@@ -149,15 +149,25 @@ CLAIMED = {
              "step and the detector law). Known finding F13 (Sampler.sample ignores heralds).",
         ref="§5 C07"),
     "C11": dict(
-        text="Lean refinement theorem over the cache model: if the computed value factors through the configuration "
-             "snapshot then, after ANY history of reconfigurations and reads, every read returns what a fresh object "
-             "with the current configuration computes; the repaired snapshot determines the configuration (so every "
-             "computation factors through it), the pinned one does not (F10 witness with a stale read). The check "
-             "drives long-lived Sampler/QuickSampler/Analyzer objects through random histories and compares every "
-             "observation with a fresh object built from the current settings.",
-        technique="Lean 4 cache-refinement proof by induction over histories + long-lived vs fresh object differential check",
-        note="The model abstracts U_full and source values to identifiers with decidable equality; `compute` of the "
-             "implementation is taken to be a fresh object's result.",
+        text="Lean refinement theorems over the cache model (26): if the computed value factors through the "
+             "configuration snapshot then, after ANY history of reconfigurations and reads - including computations "
+             "that raise - every read returns what a fresh object with the current configuration computes; the "
+             "repaired snapshots of Sampler and QuickSampler (object identity of the post-selection AND the rules it "
+             "holds now) determine the configuration, the pinned ones do not (F10 and F30 witnesses with stale reads, "
+             "kernel-decided); for any number of holders sharing PostSelection / Backend / Source objects that are "
+             "changed in place, the cached world equals the cache-free world read for read "
+             "(shared_history_independent). The model is EXECUTED against the code: on random and directed histories "
+             "the driver runs Cached.runE / CWorld.step on configurations abstracted from public attributes and the "
+             "model's per-read 'recomputed' flag is compared with the implementation's (counting wrappers installed by "
+             "the harness around pdist_calc / Backend.probability / the distribution getters; /repo untouched): a "
+             "field dropped from or added to _gen_calculation_values is reported by name. Every observation of "
+             "long-lived Sampler/QuickSampler/Analyzer objects (also with shared components) is compared with a "
+             "fresh object built from the current settings.",
+        technique="Lean 4 cache-refinement proof by induction over histories (single object and world of holders) + "
+                  "per-read recomputation correspondence + long-lived vs fresh object differential check",
+        note="The distribution function itself is abstract in the model (`compute`); that it depends on exactly the "
+             "snapshot fields is what the long-lived-vs-fresh oracle searches counterexamples to. U_full and source "
+             "values are abstracted to identifiers with the code's own equality.",
         ref="§5 C11"),
     "C19": dict(
         text="Proved for all circuits, options and both back-ends on the model: Display never indexes outside the "
